@@ -539,6 +539,17 @@ func RunC19(t *kernel.Tape, o Opts) *Result {
 	res.NonTrivial = (clones > 0 || forked) && mutAfterClone > 0 && cmpAfter > 0
 	res.Yields += len(s.trace)
 	res.Distinct = hashStrings(append(append([]string(nil), s.trace...), res.SchedHash)...)
+	{
+		obs := append([]string(nil), s.trace...)
+		for _, h := range s.hs {
+			if h.ver {
+				obs = append(obs, uni.AttrString(h.va), h.va.String())
+			} else {
+				obs = append(obs, uni.TypeString(h.dt), h.dt.String())
+			}
+		}
+		res.Digest = hashStrings(obs...)
+	}
 	if len(res.Violations) > 0 || len(res.RaceSteps) > 0 || o.WantDetail {
 		res.Scenario = map[string]any{"history": s.trace}
 	}
